@@ -233,6 +233,16 @@ def _months_shard(arg):
                     if (bk.year, bk.month, bk.day) != (y, m, dd):
                         acc.violation("C01/%s/ymd-roundtrip/y%d" % (cal_id, y), "%d-%d-%d -> day %d -> %d-%d-%d" % (y, m, dd, nn, bk.year, bk.month, bk.day), {"calendar": cal_id, "day": nn}, py=_py_day(cal_id, nn))
                 recs.append((nf, nl, m))
+                # every construction route: the era / year-of-era form must accept exactly the same (month, day) range
+                if _era_ctor_ok():
+                    era, yoe = last.era, last.year_of_era
+                    acc.count(evaluations=2)
+                    via_era = LocalDate(yoe, m, dim, cal, era)
+                    if not (via_era == last):
+                        acc.violation("C01/%s/era-ctor/y%d" % (cal_id, y), "LocalDate(era=%r, year_of_era=%d, %d, %d) differs from %d-%d-%d" % (era, yoe, m, dim, y, m, dim),
+                                      {"calendar": cal_id, "ymd": [y, m, dim]})
+                    _must_raise(acc, "C01/%s/era-ctor-accepts-bad-day/y%d" % (cal_id, y), "LocalDate(era=%r, year_of_era=%d, %d, %d) (month has %d days)" % (era, yoe, m, dim + 1, dim),
+                                lambda m=m, dim=dim, yoe=yoe, era=era: LocalDate(yoe, m, dim + 1, cal, era), {"calendar": cal_id, "ymd": [y, m, dim + 1]})
             recs.sort()
             for (f1, l1, m1), (f2, l2, m2) in zip(recs, recs[1:]):
                 if f2 != l1 + 1:
